@@ -394,6 +394,91 @@ def main():
     set_globals(api, defaults)
     ctx.lap("histories")
 
+    # ------------------------------------------------------------------ constructor sweep: explicit parameters reach every assembler object
+    # Invariant at a hook: for EVERY public boundary-operator constructor (all families x operators x real / complex / purely
+    # imaginary wavenumbers - the latter are forwarded to other constructors) created with an explicit parameter object P,
+    # every assembler object reachable from the operator (interface, implementation, singular part, recursively) must hold
+    # P's values. A subset is also compared numerically: explicit P under default globals == parameters=None under globals P.
+    set_globals(api, defaults)
+    gsw = M.to_grid(ms["cube"])
+    p1s = api.function_space(gsw, "P", 1)
+    dp0s = api.function_space(gsw, "DP", 0)
+    rwgs = api.function_space(gsw, "RWG", 0)
+    sncs = api.function_space(gsw, "SNC", 0)
+    sweep = []
+    for fam, ks in (("laplace", [None]), ("helmholtz", [1.3, 0.8 + 0.5j, 0.9j]), ("modified_helmholtz", [0.7])):
+        for op in O.SCALAR_OPS:
+            for k in ks:
+                for asm in ("default_nonlocal", "dense", "only_singular_part", "fmm"):
+                    sweep.append((fam, op, k, asm, p1s, p1s, p1s))
+    for op in ("electric_field", "magnetic_field"):
+        for k in (1.1, 0.6 + 0.3j):
+            for asm in ("default_nonlocal", "only_singular_part", "fmm"):
+                sweep.append(("maxwell", op, k, asm, rwgs, rwgs, sncs))
+    for op, sp in (("identity", (p1s, p1s, dp0s)), ("laplace_beltrami", (p1s, p1s, p1s)), ("identity", (rwgs, rwgs, sncs))):
+        sweep.append(("sparse", op, None, "sparse", sp[0], sp[1], sp[2]))
+    nbind = 0
+
+    def reachable_parameter_objects(opx, depth=0):
+        out = []
+        asm = getattr(opx, "assembler", None)
+        if asm is not None:
+            out.append(("interface", asm.parameters))
+            impl = getattr(asm, "_implementation", None)
+            if impl is not None and hasattr(impl, "parameters"):
+                out.append(("implementation:" + type(impl).__name__, impl.parameters))
+        out.append(("operator", opx.parameters))
+        sp_ = getattr(getattr(opx, "descriptor", None), "singular_part", None)
+        if sp_ is not None and depth < 3:
+            out += [("singular_part." + n, p_) for n, p_ in reachable_parameter_objects(sp_, depth + 1)]
+        return out
+
+    for fam, op, k, asm, dom, ran, dual in sweep:
+        cid = "ctor:%s.%s:k=%s:%s" % (fam, op, k, asm)
+        if not ctx.want(cid):
+            continue
+        with ctx.guard(cid, "constructor_parameter_binding"):
+            Pex = api.DefaultParameters()
+            Pex.quadrature.regular, Pex.quadrature.singular = 7, 6
+            if fam == "sparse":
+                opx = O.boundary(api, fam, op, dom, ran, dual, parameters=Pex)
+            else:
+                opx = O.boundary(api, fam, op, dom, ran, dual, k, parameters=Pex, assembler=asm)
+            bad = [(n, (p_.quadrature.regular, p_.quadrature.singular)) for n, p_ in reachable_parameter_objects(opx)
+                   if (p_.quadrature.regular, p_.quadrature.singular) != (7, 6)]
+            nbind += 1
+            kcls = "none" if k is None else ("real_k" if np.imag(k) == 0 else ("imaginary_k" if np.real(k) == 0 else "complex_k"))
+            ctx.case(cid, {"constructor": fam + "." + op, "k": k, "assembler": asm, "objects_checked": len(reachable_parameter_objects(opx)), "not_bound": bad})
+            if bad:
+                ctx.violation("explicit_parameters_not_bound:%s.%s:%s" % (fam, op, kcls), "%s: created with parameters=(7,6) but %s hold other values" % (cid, bad), cid)
+    ctx.note("constructors_checked_for_parameter_binding", nbind)
+    # numeric subset (each one costs JIT time): explicit P under default globals vs parameters=None under globals P
+    numeric = [("laplace", "double_layer", None, "dense"), ("helmholtz", "adjoint_double_layer", 0.9j, "dense"), ("helmholtz", "single_layer", 0.9j, "dense")]
+    if not ctx.quick:
+        numeric += [("helmholtz", "double_layer", 0.9j, "dense"), ("helmholtz", "hypersingular", 0.9j, "dense"), ("modified_helmholtz", "hypersingular", 0.7, "dense"),
+                    ("laplace", "hypersingular", None, "dense"), ("helmholtz", "hypersingular", 1.3, "dense"), ("maxwell", "magnetic_field", 1.1, "default_nonlocal")]
+    for fam, op, k, asm in numeric:
+        cid = "ctor_numeric:%s.%s:k=%s" % (fam, op, k)
+        if not ctx.want(cid):
+            continue
+        with ctx.guard(cid, "explicit_vs_global_parameters"):
+            dom, ran, dual = (rwgs, rwgs, sncs) if fam == "maxwell" else (p1s, p1s, p1s)
+            Pex = api.DefaultParameters()
+            Pex.quadrature.regular, Pex.quadrature.singular = 6, 5
+            set_globals(api, defaults)
+            A_ex = O.dense(O.boundary(api, fam, op, dom, ran, dual, k, parameters=Pex, assembler=asm))
+            A_def = O.dense(O.boundary(api, fam, op, dom, ran, dual, k, assembler=asm))
+            set_globals(api, dict(defaults, regular=6, singular=5))
+            A_gl = O.dense(O.boundary(api, fam, op, dom, ran, dual, k, assembler=asm))
+            set_globals(api, defaults)
+            dev = O.rel(A_ex, A_gl)
+            sens = O.rel(A_def, A_gl)
+            kcls = "none" if k is None else ("real_k" if np.imag(k) == 0 else ("imaginary_k" if np.real(k) == 0 else "complex_k"))
+            ctx.case(cid, {"constructor": fam + "." + op, "k": k, "explicit_vs_global": dev, "sensitivity_to_orders": sens})
+            if dev > 1e-12:
+                ctx.violation("explicit_parameters_not_honoured:%s.%s:%s" % (fam, op, kcls), "%s: explicit (6,5) differs from the same values set globally by %.3e (orders change the matrix by %.3e)" % (cid, dev, sens), cid)
+    ctx.lap("constructor_sweep")
+
     # ------------------------------------------------------------------ single precision
     if not ctx.worker:
         for cfg in (OPS[0], OPS[2]) if not ctx.quick else (OPS[0],):
